@@ -96,6 +96,10 @@ fn run_cs(s: &str, a: usize, b: usize) -> (String, String) {
         Ok((l, d)) => {
             let st = spec_lc(s, a);
             if !l.starts_with(&format!("S{};", lc(st))) { fail(format!("Error.line_col={} start spec={:?}", l, st)); }
+            // the end of the span is reported by its own line and column (counted in characters), unless it sits at the start of a
+            // line (then the implementation points at the line break before it; that case is left to the model)
+            let en = spec_lc(s, b);
+            if en.1 != 1 && !l.ends_with(&format!(";{}", lc(en))) { fail(format!("Error.line_col={} end spec={:?}", l, en)); }
             let rows: Vec<&str> = d.split('\n').collect();
             let okhead = rows.get(0).map_or(false, |r| r.ends_with(&format!("--> {}:{}", st.0, st.1)));
             let oknum = rows.get(2).map_or(false, |r| r.trim_start().starts_with(&format!("{} | ", st.0)));
